@@ -42,12 +42,13 @@ func verifDigest() core.Digest {
 // what the statement promises after a crash: the store opens; every listed
 // blob is readable and hashes to its name; its metainfo is absent or valid.
 //
-// The two recorded findings (FINDINGS.md) are states in which (1) a listed
-// name has no data file (crash between creating the blob directory and the
-// rename that commits the data) and (2) the metainfo sidecar exists but is
-// empty (crash inside os.WriteFile). With strict == false these two states are
-// filtered out by Assume, so that everything else stays checked; the
-// VerifFinding… harnesses run with strict == true.
+// The open finding F1 (FINDINGS.md) is the state in which a listed name has no
+// data file (crash between creating the blob directory and the rename that
+// commits the data). With strict == false that state is filtered out by
+// Assume so that everything else stays checked; the VerifFinding… harnesses
+// run with strict == true. Finding F2 (empty or truncated metainfo sidecar)
+// was fixed in /repo (fb680c2, 48c7110: sidecars are replaced atomically) and
+// is asserted everywhere: a sidecar that exists after a crash must decode.
 func verifAfterRestart(strict bool) *store.CAStore {
 	cas, err := verifOpen()
 	verif.Assert("store-opens-after-crash", err == nil)
@@ -57,10 +58,7 @@ func verifAfterRestart(strict bool) *store.CAStore {
 		verif.Reach("blob-listed-after-restart")
 		if !strict {
 			_, serr := cas.GetCacheFileStat(name)
-			verif.Assume(!os.IsNotExist(serr)) // finding 1
-			if fi, err := os.Stat(verifSidecar(name)); err == nil {
-				verif.Assume(fi.Size() > 0) // finding 2
-			}
+			verif.Assume(!os.IsNotExist(serr)) // open finding F1
 		}
 		r, err := cas.GetCacheFileReader(name)
 		verif.Assert("listed-blob-is-readable", err == nil)
@@ -70,9 +68,15 @@ func verifAfterRestart(strict bool) *store.CAStore {
 		d, err := core.NewDigester().FromBytes(b)
 		verif.Assert("listed-blob-hashes-to-name", err == nil && d.Hex() == name)
 
+		if fi, err := os.Stat(verifSidecar(name)); err == nil {
+			verif.Reach("metainfo-sidecar-on-disk-after-restart")
+			verif.Assert("no-empty-metainfo-sidecar", fi.Size() > 0)
+		}
 		var tm metadata.TorrentMeta
 		merr := cas.GetCacheFileMetadata(name, &tm)
-		verif.Cover("metainfo-absent-after-restart", os.IsNotExist(merr))
+		if os.IsNotExist(merr) {
+			verif.Reach("metainfo-absent-after-restart")
+		}
 		verif.Cover("metainfo-present-after-restart", merr == nil)
 		if merr != nil {
 			// getMetaInfo regenerates on not-exist and answers 500 on anything else
@@ -147,23 +151,23 @@ func verifCrashRun(which int, strict bool) {
 // commit, persist flag and metainfo generation, then restart.
 func VerifCrashDuringUploadCommit() { verifCrashRun(0, false) }
 
-// VerifFindingCrashDuringUploadCommit: the same without filtering the recorded
-// findings.
+// VerifFindingCrashDuringUploadCommit: the same without filtering the open
+// finding F1.
 func VerifFindingCrashDuringUploadCommit() { verifCrashRun(0, true) }
 
 // VerifCrashDuringRefresh: crash at any file-system step of a backend refresh
 // (disk path), then restart.
 func VerifCrashDuringRefresh() { verifCrashRun(1, false) }
 
-// VerifFindingCrashDuringRefresh: the same without filtering the recorded
-// findings.
+// VerifFindingCrashDuringRefresh: the same without filtering the open finding
+// F1.
 func VerifFindingCrashDuringRefresh() { verifCrashRun(1, true) }
 
 // VerifFindingCrashDuringMetainfoRewrite: a cached blob already has metainfo
 // (piece length 1); metainfo is generated again with another piece length
 // configuration (sidecar content of another length, so compareAndWriteFile
-// truncates and then rewrites in place) and the process dies in between.
-// Same root cause as finding 2 (sidecars are written in place).
+// used to truncate and then rewrite in place) and the process dies in between.
+// Finding F2, fixed in /repo by 48c7110: regression check.
 func VerifFindingCrashDuringMetainfoRewrite() {
 	verif.Option("max_preempt", 0)
 	verifScenario(0)
